@@ -72,7 +72,12 @@ def eval_var(var):
 
     """
     try:
-        return literal_eval(var)
+        value = literal_eval(var)
+        # Template variables are stored in the workflow database as their
+        # repr() and read back with literal_eval() on restart: refuse values
+        # which cannot make this round trip (inf, Ellipsis, huge integers).
+        literal_eval(repr(value))
+        return value
     except ValueError:
         raise InputError(
             f'Invalid template variable: {var}'
